@@ -202,15 +202,11 @@ fn run_case(c: &Case, rep: &mut CaseReport) -> Verdict {
                 continue;
             }
             let compacted = layout.iter().any(|l| l == "layout:l1" || l == "layout:l2" || l == "layout:l3");
-            if ex.limit_with_order && q.order.is_some() && q.limit.is_some() && compacted && !sub_region() {
-                // same open finding: over compacted segments the plan assumes event_per_zone rows per zone and misses the
-                // top zone (ORDER BY t DESC LIMIT 1 over L0 + L2 returned the second-largest key, thorough tier). Rows in
-                // memory and in segments at once were excluded here too (a flaky wrong slice, 1 of 10 seeds) until the
-                // repairs 00f546b / a541073 (column order and width of the flows under one schema): silent since in 12
-                // seeds of the sub-region experiment and in the thorough tier, so that layout is judged again
-                rep.excluded_known += 1;
-                continue;
-            }
+            // ORDER BY + LIMIT over rows in memory and segments at once, and over compacted segments, were excluded here while
+            // they belonged to the open ORDER BY + LIMIT finding: a flaky wrong slice on mixed layouts (gone since the repairs
+            // 00f546b / a541073 of the column order and width of the flows), and the top zone cut off over compacted
+            // segments (repaired: f7501e3 ladder minimum, da069a2 straddling zones). Both layouts are judged again.
+            let _ = (mixed, compacted);
             if ex.limit_with_order && q.order.is_some() && q.limit.is_some() && sub_region() {
                 // experiment: ORDER BY + LIMIT is judged only without WHERE / FOR, on L0 segments and memory, before any restart
                 let fields_ok = std::env::var("VCHECK_C10_SUB").map(|v| v.split(',').any(|f| f == q.order.as_ref().unwrap().0 || f == "all")).unwrap_or(false);
